@@ -1,36 +1,140 @@
 /-
 `python_full_version in "…"` / `python_full_version not in "…"` on lists of two- and three-component versions, as
 leaves of the same-name merge: a three-component token `a.b.c` contributes the clause `==a.b.c` / `!=a.b.c`, a
-two-component token `a.b` the wildcard clause `a.b.*` / `!=a.b.*` (poetry's reading of a short version in a list).
+two-component token `a.b` the wildcard clause `a.b.*` / `!=a.b.*`, a one-component token `a` the clause `a.*` / `!=a.*` (poetry's reading of
+a short version in a list).
 The constraint string the constructor builds is read by the constraint parser as a constraint of the regular
 setting over Python bounds, so the leaf is a `VerLeaf` and the text-tracking merge theorem applies.
 -/
 import PoetryVerif.Proofs.MarkerAlgSoundPfvC
 import PoetryVerif.Proofs.MarkerAlgSoundPvLists
 import PoetryVerif.Proofs.PyConvPairSound
+import PoetryVerif.Proofs.PyConvWildRange
 
 set_option linter.unusedSimpArgs false
 set_option linter.unusedVariables false
 
+namespace Poetry
+open Poetry.Marker Poetry.Version VParser Std
+
+theorem lt_step1 (a : Nat) : Version.cmp (finalV [a]) (finalV [a + 1]) = .lt := by
+  refine cmp_lt_of_rel_lt (a := finalV [a]) (b := finalV [a + 1]) ?_ ?_
+  · rfl
+  show compare (stripZeros [a]) (stripZeros [a + 1]) = .lt
+  exact sz_cmp_lt_head (by omega) _ _
+
+theorem firstDev_lt_step1 (a : Nat) : Version.cmp (finalV [a]).firstDevrelease (finalV [a + 1]) = .lt := by
+  refine cmp_lt_of_rel_lt (a := (finalV [a]).firstDevrelease) (b := finalV [a + 1]) ?_ ?_
+  · rfl
+  show compare (stripZeros [a]) (stripZeros [a + 1]) = .lt
+  exact sz_cmp_lt_head (by omega) _ _
+
+/-- `a.*` in a marker constraint is `[a, a+1)` -/
+theorem makeX_star1 (a : Nat) : makeXConstraintRange (finalV [a]) false true =
+    .ok (.single (.rng ⟨some (finalV [a]), some (finalV [a + 1]), true, false⟩)) := by
+  have hp : (finalV [a]).isPostrelease = false := rfl
+  have hs : (finalV [a]).isStable = true := rfl
+  have hdv : (finalV [a]).isDevrelease = false := rfl
+  simp [makeXConstraintRange, hdv, hp, hs, finalV_nextStable1]
+
+/-- `!=a.*` in a marker constraint is `<a || >=a+1` -/
+theorem xRange_inv1 (a : Nat) :
+    makeXConstraintRange (finalV [a]) true true =
+      .ok (.union [.rng ⟨none, some (finalV [a]), false, false⟩, .rng ⟨some (finalV [a + 1]), none, true, false⟩]) := by
+  have h1 := lt_step1 a
+  have h2 := firstDev_lt_step1 a
+  have hu : (finalV [a]).isUnstable = false := rfl
+  have hp : (finalV [a]).isPostrelease = false := rfl
+  have hs : (finalV [a]).isStable = true := rfl
+  have hdv : (finalV [a]).isDevrelease = false := rfl
+  simp only [makeXConstraintRange, hdv, hp, hs, finalV_nextStable1, if_true, Bool.false_eq_true, if_false]
+  simp [VC.difference, VC.any, RC.difference, RC.rngDifferenceRng, RC.allowsAny, VRange.isStrictlyLower, VRange.isStrictlyHigher,
+    VRange.allowedMax, VRange.allowedMin, VRange.any, VRange.allowsLower, VRange.allowsHigher, optVerEq, bind, Except.bind,
+    pure, Except.pure, hu]
+  have hu' : (finalV [a + 1]).isUnstable = false := rfl
+  have heq : (finalV [a]).eqv (finalV [a + 1]) = false := by simp [Version.eqv, h1]
+  have hlt : Version.lt (finalV [a]).firstDevrelease (finalV [a + 1]) = true := by simp [Version.lt, h2]
+  simp [hu', heq, unionOfFlat, RC.isAny, VRange.isAny, sortRCs, insertSorted, RC.lt, VRange.cmp, RC.view, RC.min, RC.max,
+    RC.imin, RC.imax, mergeLoop, RC.allowsAny, VRange.isStrictlyLower, VRange.isStrictlyHigher, VRange.allowedMax,
+    VRange.allowedMin, optVerEq, hu, hlt, VRange.isAdjacentTo, bind, Except.bind, pure, Except.pure]
+
+/-- the clause `a.*` -/
+def star1Item (a : Nat) : List Char := relChars [a] ++ ['.', '*']
+def star1VC (a : Nat) : VC := .single (.rng ⟨some (finalV [a]), some (finalV [a + 1]), true, false⟩)
+def neStar1VC (a : Nat) : VC :=
+  .union [.rng ⟨none, some (finalV [a]), false, false⟩, .rng ⟨some (finalV [a + 1]), none, true, false⟩]
+
+theorem parseSingle_star1 (a : Nat) : parseSingle (star1Item a) true = .ok (star1VC a) := by
+  rw [star1Item, parseSingle_star true a [] (xCore_star1 false a), makeX_star1]; rfl
+
+theorem parseSingle_neStar1 (a : Nat) : parseSingle ('!' :: '=' :: star1Item a) true = .ok (neStar1VC a) :=
+  (parseSingle_neStar true a [] (xCore_star1 true a)).trans (xRange_inv1 a)
+
+theorem star1Item_ok (a : Nat) : ItemOK (star1Item a) ∧ star1Item a ≠ ['*'] ∧ PyVCok (star1VC a) := by
+  obtain ⟨c, cs, hc, hd⟩ := relChars_head a []
+  refine ⟨⟨?_, ?_, ?_⟩, ?_, ?_⟩
+  · exact noSep_append (noSep_rel _) (noSep_cons (sp (by simp)) (noSep_cons (sp (by simp)) (fun _ h => by cases h)))
+  · exact ⟨c, cs ++ ['.', '*'], by simp [star1Item, hc], digit_startOK hd⟩
+  · exact lastOK_star _
+  · simp [star1Item, hc]
+  · exact ok_both _ _ (pb _) (pb _) (lt_step1 a)
+
+theorem neStar1Item_ok (a : Nat) :
+    ItemOK ('!' :: '=' :: star1Item a) ∧ ('!' :: '=' :: star1Item a) ≠ ['*'] ∧ PyVCok (neStar1VC a) := by
+  refine ⟨⟨?_, ?_, ?_⟩, ?_, ?_⟩
+  · exact noSep_cons (sp (by simp)) (noSep_cons (sp (by simp)) (noSep_append (noSep_rel _)
+      (noSep_cons (sp (by simp)) (noSep_cons (sp (by simp)) (fun _ h => by cases h)))))
+  · exact ⟨'!', _, rfl, startOK_op (by simp)⟩
+  · exact lastOK_star ('!' :: '=' :: relChars [a])
+  · simp
+  · exact ok_neStar _ _ (pb _) (pb _) (lt_step1 a)
+
+theorem star1VC_allows (a X Y Z : Nat) : (star1VC a).allowsPlain (pyV X Y Z) = decide (X = a) := by
+  apply bool_iff
+  have hrel : ∀ l, (finalV l).release = l := fun _ => rfl
+  simp only [star1VC, VC.allowsPlain, VC.flatten, List.any_cons, List.any_nil, Bool.or_false, RC.allows]
+  rw [allows_both (finalV [a]) (finalV [a + 1]) true false (pb _) (pb _) X Y Z]
+  simp only [hrel, pad3, if_true, ne_eq, lex3_gt, lex3_lt, Bool.false_eq_true, if_false, decide_eq_true_eq]
+  omega
+
+theorem neStar1VC_allows (a X Y Z : Nat) : (neStar1VC a).allowsPlain (pyV X Y Z) = !decide (X = a) := by
+  rw [Bool.eq_iff_iff]
+  have hrel : ∀ l, (finalV l).release = l := fun _ => rfl
+  simp only [neStar1VC, VC.allowsPlain, VC.flatten, List.any_cons, List.any_nil, Bool.or_false, RC.allows,
+    Bool.or_eq_true, allows_hi _ false (pb [a]), allows_lo _ true (pb [a + 1]), hrel, pad3, if_true,
+    Bool.false_eq_true, if_false, ne_eq, lex3_gt, lex3_lt, Bool.not_eq_true', decide_eq_false_iff_not]
+  omega
+
+end Poetry
+
 namespace Poetry.Marker
 open Poetry Poetry.Spec Poetry.Spec.Pep508 Poetry.VParser Poetry.Version
 
-/-- a version token of two or three components -/
+/-- a version token of one, two or three components -/
 inductive PTok where
+  | one (a : Nat)
   | two (a b : Nat)
   | three (a b c : Nat)
 
 def PTok.vtok : PTok → VTok
+  | .one a => (a, [])
   | .two a b => (a, [b])
   | .three a b c => (a, [b, c])
 
 /-- the clause a token contributes -/
 def PTok.item (isIn : Bool) : PTok → String
+  | .one a => String.ofList (if isIn then star1Item a else '!' :: '=' :: star1Item a)
   | .two a b => String.ofList (if isIn then starItem (a, b) else neStarItem (a, b))
   | .three a b c => (if isIn then "==" else "!=") ++ Version.relText [a, b, c]
 
 theorem ptok_itemShape (isIn : Bool) (t : PTok) : ItemShape (t.item isIn) := by
   cases t with
+  | one a =>
+    cases isIn
+    · exact ⟨by simpa [PTok.item] using (neStar1Item_ok a).1, by simpa [PTok.item] using (neStar1Item_ok a).2.1,
+        _, by simpa [PTok.item] using parseSingle_neStar1 a, (neStar1Item_ok a).2.2⟩
+    · exact ⟨by simpa [PTok.item] using (star1Item_ok a).1, by simpa [PTok.item] using (star1Item_ok a).2.1,
+        _, by simpa [PTok.item] using parseSingle_star1 a, (star1Item_ok a).2.2⟩
   | two a b =>
     cases isIn
     · exact ⟨by simpa [PTok.item] using (neStarItem_ok (a, b)).1, by simpa [PTok.item] using (neStarItem_ok (a, b)).2.1,
@@ -55,6 +159,15 @@ theorem versionListItem_ptok (isIn : Bool) (t : PTok) :
        (if isIn then "" else "!=") ++ joinChars "." (split ++ [['*']])
      else (if isIn then "==" else "!=") ++ joinChars "." split) = t.item isIn := by
   cases t with
+  | one a =>
+    have h1 : (splitDots (Marker.relChars a [])).length = 1 := by rw [splitDots_relChars]; simp
+    simp only [PTok.vtok, VTok.chars, h1]
+    have hj : (joinChars "." (splitDots (Marker.relChars a []) ++ [['*']])).toList = star1Item a := by
+      rw [splitDots_relChars]
+      simp [joinChars, joinWith, star1Item, ← relChars_bridge, Marker.relChars, relTail]
+    cases isIn
+    · exact str_eq_of_toList (by simp [PTok.item, hj])
+    · exact str_eq_of_toList (by simp [PTok.item, hj])
   | two a b =>
     have h2 : (splitDots (Marker.relChars a [b])).length = 2 := by rw [splitDots_relChars]; simp
     simp only [PTok.vtok, VTok.chars, h2]
@@ -106,6 +219,7 @@ theorem versionListConstraint_pfv (isIn : Bool) (t0 : PTok) (rest : List (String
 
 /-- what the clause of a token denotes -/
 def PTok.vc (isIn : Bool) : PTok → VC
+  | .one a => if isIn then star1VC a else neStar1VC a
   | .two a b => if isIn then starVC (a, b) else neStarVC2 (a, b)
   | .three a b c =>
     if isIn then .single (.ver (finalV [a, b, c]))
@@ -114,11 +228,16 @@ def PTok.vc (isIn : Bool) : PTok → VC
 /-- interpreter `X.Y.Z` is listed by the token: `a.b` lists every `a.b.*` (the wildcard reading), `a.b.c` lists
 `a.b.c` only -/
 def PTok.hit (X Y Z : Nat) : PTok → Bool
+  | .one a => decide (X = a)
   | .two a b => decide (X = a ∧ Y = b)
   | .three a b c => decide (X = a ∧ Y = b ∧ Z = c)
 
 theorem ptok_parse (isIn : Bool) (t : PTok) : parseSingle (t.item isIn).toList true = .ok (t.vc isIn) := by
   cases t with
+  | one a =>
+    cases isIn
+    · simpa [PTok.item, PTok.vc] using parseSingle_neStar1 a
+    · simpa [PTok.item, PTok.vc] using parseSingle_star1 a
   | two a b =>
     cases isIn
     · simpa [PTok.item, PTok.vc] using parseSingle_neStarItem (a, b)
@@ -142,6 +261,10 @@ theorem ptok_vc_allows (isIn : Bool) (t : PTok) (X Y Z : Nat) :
     (t.vc isIn).allowsPlain (pyV X Y Z) = (if isIn then t.hit X Y Z else !t.hit X Y Z) := by
   have hrel : ∀ l, (finalV l).release = l := fun _ => rfl
   cases t with
+  | one a =>
+    cases isIn
+    · simpa [PTok.vc, PTok.hit] using neStar1VC_allows a X Y Z
+    · simpa [PTok.vc, PTok.hit] using star1VC_allows a X Y Z
   | two a b =>
     cases isIn
     · simpa [PTok.vc, PTok.hit] using neStarVC2_allows (a, b) X Y Z
